@@ -1,18 +1,22 @@
 #!/venv/bin/python
-"""Store confirmed round-2 seeded changes: tools/keep_round2.py Cxx:A:"<verdict>" ...
+"""Store confirmed round-2/3 seeded changes (SEEDROUND=3 for round 3: ids -E/-F): tools/keep_round2.py Cxx:A:"<verdict>" ...
 
 Reads /tmp/seed2-Cxx/seed/{A,B}.diff, demo_{A,B}.py, helper modules and notes.md (for the
 'Trigger'/'Needed' bullet) and writes /verif/seeded/Cxx-C (from A) or Cxx-D (from B)."""
 import json
+import os
 import re
 import shutil
 import sys
 from pathlib import Path
 
+ROUND = int(os.environ.get("SEEDROUND", "2"))
+SUFFIX = {2: ("C", "D"), 3: ("E", "F")}[ROUND]
+
 for spec in sys.argv[1:]:
     prop, x, verdict = spec.split(":", 2)
-    src = Path(f"/tmp/seed2-{prop}/seed")
-    sid = f"{prop}-{'C' if x == 'A' else 'D'}"
+    src = Path(f"/tmp/seed{ROUND}-{prop}/seed")
+    sid = f"{prop}-{SUFFIX[0] if x == 'A' else SUFFIX[1]}"
     dst = Path(f"/verif/seeded/{sid}")
     dst.mkdir(parents=True, exist_ok=True)
     shutil.copy(src / f"{x}.diff", dst / "patch.diff")
@@ -27,7 +31,7 @@ for spec in sys.argv[1:]:
     needs = " ".join((t.group(2) if t else section[:400]).split())
     title = " ".join(section.splitlines()[0].lstrip("# ").split()) if section else ""
     json.dump({
-        "id": sid, "breaks_property": prop, "round": 2, "what": title, "needs_to_manifest": needs,
+        "id": sid, "breaks_property": prop, "round": ROUND, "what": title, "needs_to_manifest": needs,
         "origin": "written by a sub-agent that saw only the property text and a scratch worktree",
         "confirmed": "demo.py exits 0 on the unchanged tree and 1 with patch.diff applied; 302-test baseline green "
                      "with the patch (tools/seedeval.sh)",
